@@ -361,7 +361,8 @@ fn ctor_snap(hdr: usize, off: usize, variant: u64, rng: &mut Rng) -> Vec<(String
                 // wrong source address: valid SCION/UDP packet from another IP
                 let mut d = offender_bytes(off.max(36 + 24 + 8), rng);
                 d.truncate(off.max(36 + 24 + 8));
-                if off < d.len() {
+                let hl0 = d[5] as usize * 4;
+                if off < d.len() || off < hl0 + 8 {
                     // cannot be a valid packet at this length: fall back to malformed
                     let mut m = rng.bytes(off);
                     if !m.is_empty() {
@@ -977,6 +978,11 @@ fn cmd_router(inp: &str, outp: &str) {
                 if dr.t == 129 || dr.t == 131 {
                     let same = if let Some((_, dq)) = wire::describe_scmp(&original) { dq.id == dr.id && dq.seq == dr.seq && (dr.t == 131 || dq.data == dr.data) } else { false };
                     m["echo_same"] = json!(same);
+                    if dr.t == 131 {
+                        // traceroute reply: ISD-AS of the answering router (second AS of the scenario: 1-2) and the alerted interface (2)
+                        let pl = hr.payload(b);
+                        m["tr_fields_ok"] = json!(pl.len() == 24 && pl[8..16] == ia_bytes(1, 2) && pl[16..24] == 2u64.to_be_bytes());
+                    }
                 }
             }
             rets.push(m);
@@ -1050,6 +1056,11 @@ fn socket_packet(kind: &str, id: u16, rng: &mut Rng) -> Vec<u8> {
             let mut b = mk(202, &scmp(128, rng));
             wire::fix_l4_checksum(&mut b);
             if kind == "bad_req" { flip(b) } else { b }
+        }
+        "treq" => {
+            let mut b = mk(202, &scmp(130, rng));
+            wire::fix_l4_checksum(&mut b);
+            b
         }
         "rep" => {
             let mut b = mk(202, &scmp(129, rng));
@@ -1432,7 +1443,7 @@ fn cmd_record(evp: &str, resp: &str) {
 
     // ---- (d) socket runs with random packets
     let ns = if thorough { 1200 } else { 250 };
-    let skinds = ["dgram", "dgram", "bad_udp", "err", "err", "bad_err", "uerr", "req", "bad_req", "rep", "uinfo", "other"];
+    let skinds = ["dgram", "dgram", "bad_udp", "err", "err", "bad_err", "uerr", "req", "bad_req", "rep", "treq", "uinfo", "other"];
     let mut runs = 0u64;
     for _ in 0..ns {
         let n = 1 + rng.below(12) as usize;
@@ -1498,6 +1509,8 @@ fn cmd_record(evp: &str, resp: &str) {
 struct ExchangeWorld {
     healthy: TestPathContext,
     broken: TestPathContext,
+    /// same path, the middle hop carries an ingress router alert (packets from A are served by that router)
+    alert: TestPathContext,
     a: ScionAddr,
     b: ScionAddr,
     /// path bytes (type 1) for packets originated at B towards A (reversal of what arrives at B)
@@ -1514,6 +1527,7 @@ fn exchange_world() -> Option<ExchangeWorld> {
     };
     let healthy = mk(false);
     let broken = mk(true);
+    let alert = TestPathBuilder::new(a, b).up().add_hop(0, 1).add_hop_with_alerts(2, true, 3, false).add_hop(4, 0).build(100);
     // probe: what does a packet from A look like when it arrives at B?
     let rb = Arc::new(RecReceiver::default());
     let mut targets = NetworkReceiverRegistry::new();
@@ -1526,7 +1540,7 @@ fn exchange_world() -> Option<ExchangeWorld> {
     let got = rb.got.lock().unwrap().clone();
     let h = wire::parse_hdr(got.first()?)?;
     let path_b_to_a = wire::reverse_standard(&h.path)?;
-    Some(ExchangeWorld { healthy, broken, a, b, path_b_to_a })
+    Some(ExchangeWorld { healthy, broken, alert, a, b, path_b_to_a })
 }
 
 /// class of a real packet in the vocabulary of ScmpExchange
@@ -1544,6 +1558,8 @@ fn exchange_kind(bytes: &[u8]) -> String {
                 match d.t {
                     128 => "req".into(),
                     129 => "rep".into(),
+                    130 => "treq".into(),
+                    131 => "trep".into(),
                     1 | 2 | 4 | 5 | 6 => "err".into(),
                     t if t < 128 => "uerr".into(),
                     _ => "uinfo".into(),
@@ -1621,7 +1637,12 @@ fn cmd_exchange(inp: &str, outp: &str) {
                     let k = m["k"].as_str().unwrap();
                     let from_a = m["src"].as_str() == Some("A");
                     let (src, dst) = if from_a { (world.a, world.b) } else { (world.b, world.a) };
-                    let path = if from_a { world.healthy.data_plane_path.clone() } else { dp_path_from_bytes(1, &world.path_b_to_a).unwrap_or(DpPath::Empty) };
+                    let served = m["fate"].as_str() == Some("served");
+                    let path = if from_a {
+                        if served { world.alert.data_plane_path.clone() } else { world.healthy.data_plane_path.clone() }
+                    } else {
+                        dp_path_from_bytes(1, &world.path_b_to_a).unwrap_or(DpPath::Empty)
+                    };
                     let id = (msgs.len() + 1) as u16;
                     let quote = offender_bytes(70, &mut rng);
                     let data = rng.bytes(16);
@@ -1639,6 +1660,8 @@ fn cmd_exchange(inp: &str, outp: &str) {
                         let t = match k {
                             "req" | "bad" => 128,
                             "rep" => 129,
+                            "treq" => 130,
+                            "trep" => 131,
                             "err" => 4,
                             "uerr" => 100,
                             _ => 200,
@@ -1689,7 +1712,13 @@ fn cmd_exchange(inp: &str, outp: &str) {
             let before_a = ra.got.lock().unwrap().len();
             let before_b = rb.got.lock().unwrap().len();
             if !pre {
-                let ctx = if fate == "failed" { &world.broken } else { &world.healthy };
+                let ctx = if fate == "failed" {
+                    &world.broken
+                } else if fate == "served" {
+                    &world.alert
+                } else {
+                    &world.healthy
+                };
                 let mut work = bytes.clone();
                 let r = catch(|| {
                     let topo = ctx.build_topology();
@@ -1724,8 +1753,8 @@ fn cmd_exchange(inp: &str, outp: &str) {
                     msgs.push(RealMsg { bytes: pkt.clone(), cause: id, by: "router", src: "R", dst: host, pre_delivered: true, arrived: None });
                     continue;
                 }
-                if fate == "failed" && !pre {
-                    notes.push(format!("message {id} arrived at {host} although the link is down"));
+                if (fate == "failed" || fate == "served") && !pre {
+                    notes.push(format!("message {id} arrived at {host} although its fate is {fate}"));
                 }
                 msgs[id - 1].arrived = Some(pkt.clone());
                 // the host's SCMP handlers (socket wiring: error handler with the application receiver, then echo handler)
@@ -1763,9 +1792,19 @@ fn cmd_exchange(inp: &str, outp: &str) {
         let real: Vec<Value> = msgs
             .iter()
             .map(|m| {
+                let served_ok = if m.by == "router" && m.cause > 0 {
+                    match (wire::describe_scmp(&msgs[m.cause - 1].bytes), wire::describe_scmp(&m.bytes)) {
+                        (Some((hq, dq)), Some((hr, dr))) if dr.t == 129 || dr.t == 131 => Some(
+                            dq.id == dr.id && dq.seq == dr.seq && (dr.t == 131 || dq.data == dr.data) && dr.t == dq.t + 1 && dr.cksum_ok && hr.dst_ia == hq.src_ia && hr.dst_host == hq.src_host,
+                        ),
+                        _ => None,
+                    }
+                } else {
+                    None
+                };
                 let faithful = if m.by == "host" && m.cause > 0 { Some(echo_faithful(msgs[m.cause - 1].arrived.as_deref().unwrap_or(&msgs[m.cause - 1].bytes), &m.bytes)) } else { None };
                 json!({"k": exchange_kind(&m.bytes), "cause": m.cause, "by": m.by, "src": m.src, "dst": m.dst,
-                       "faithful": faithful.as_ref().map(|f| f.0 && f.2), "why": faithful.map(|f| f.1)})
+                       "faithful": faithful.as_ref().map(|f| f.0 && f.2), "why": faithful.map(|f| f.1), "served_ok": served_ok})
             })
             .collect();
         w.write(&json!({"i": i, "real": real, "notified_a": ea.got.lock().unwrap().len(), "notified_b": eb.got.lock().unwrap().len(), "panic": panic, "notes": notes}));
